@@ -66,6 +66,15 @@ pub fn tokens(o: &Opts) -> Res<()> {
                         let (c, p, l) = sec(&store);
                         out.put(json!({"ev":"Ann","t":now(),"ip":name,"tok":hex(&tok),
                                        "v":v,"cur":c,"prev":p,"last":l}));
+                        // the same token in the wrong length (a byte appended / the last byte cut off): never issued as such
+                        if r >= 0 && tok.len() == 20 {
+                            for variant in [[tok.clone(), vec![tok[0]]].concat(), tok[..19].to_vec()] {
+                                let v = store.checkin(ip_of(name), &variant);
+                                let (c, p, l) = sec(&store);
+                                out.put(json!({"ev":"Ann","t":now(),"ip":name,"tok":hex(&variant),
+                                               "v":v,"cur":c,"prev":p,"last":l}));
+                            }
+                        }
                     }
                     _ => {}
                 }
@@ -282,8 +291,10 @@ pub fn table(o: &Opts) -> Res<()> {
                 let mut mutating = true;
                 match kind {
                     "adv" => advance_ms(op["d"].as_u64().unwrap_or(0)).await,
-                    "good" => table.offer_good(id, addr),
-                    "quest" => table.offer_questionable(id, addr),
+                    // the library reaches the table through add_nodes(responder, named) only -- use that door: an answer naming
+                    // nobody, and an answer from a responder claiming our own id (never admitted) naming the contact as hearsay
+                    "good" => table.add_nodes(id, addr, &[]),
+                    "quest" => table.add_nodes(self_id, addr_of("z4:9"), &[(id, addr)]),
                     "local" => {
                         table.mark_local(id, addr);
                     }
